@@ -20,7 +20,7 @@
 
 import pickle
 from functools import reduce
-from os import makedirs
+from os import makedirs, replace
 from os.path import isdir, isfile, join
 from warnings import warn
 
@@ -429,14 +429,22 @@ def optimize_kl(likelihood_energy,
                     overwrite=True)
 
             if _MPI_master(comm(iglobal)):
-                with open(join(output_directory, "last_finished_iteration"), "w") as f:
-                    f.write(str(iglobal))
                 _pickle_save_values(iglobal, 'energy_history', energy_history)
                 if plot_energy_history:
                     _plot_energy_history(iglobal, energy_history)
         _barrier(comm(iglobal))
 
         _minisanity(lh, iglobal, sl, comm, plot_minisanity_history)
+        _barrier(comm(iglobal))
+
+        if output_directory is not None and _MPI_master(comm(iglobal)):
+            # Commit the iteration only after everything that `resume` reads back
+            # (samples, energy history, minisanity history) is on disk, and
+            # atomically, s.t. a crash never leaves a half-written marker behind
+            lfile = join(output_directory, "last_finished_iteration")
+            with open(lfile + ".tmp", "w") as f:
+                f.write(str(iglobal))
+            replace(lfile + ".tmp", lfile)
         _barrier(comm(iglobal))
 
         _counting_report(count, iglobal, comm)
